@@ -6,9 +6,11 @@ namespace MJ.Lexer
 def tagOuts (cfg : Cfg) (g : Tag) : List Out :=
   match g.kind with
   | .var _ => [.var]
-  | .block _ _ => [.blk]
+  | .block _ => [.blk]
   | .comment _ => []
   | .raw c ri l2 _ => [.data (cut (leftCut cfg true ri c) (rightCut cfg false true l2 c) c)]
+  | .lineStmt _ => [.blk]
+  | .lineComment _ => []
 
 theorem renderOuts_append (vm bm : List Char) (a b : List Out) :
     renderOuts vm bm (a ++ b) = renderOuts vm bm a ++ renderOuts vm bm b := by
@@ -28,80 +30,138 @@ theorem renderRes_prepend (vm bm : List Char) (o : List Out) (r : Res) :
     renderRes vm bm (r.prepend o) = (renderRes vm bm r).map (renderOuts vm bm o ++ ·) := by
   cases r <;> simp [Res.prepend, renderRes, renderOuts_append]
 
+/-- line statements and line comments carry no markers -/
+theorem line_marks {d : Delims} {g : Tag} {z : List Char} (hok : tagOk d g z = true) (hl : g.isLine = true) :
+    g.l = .none ∧ g.r = .none := by
+  cases g with
+  | mk kind l r =>
+    cases kind with
+    | lineStmt ts =>
+      simp only [tagOk, Bool.and_eq_true, beq_iff_eq] at hok
+      exact ⟨hok.1.1.1.2, hok.1.1.2⟩
+    | lineComment body =>
+      simp only [tagOk, Bool.and_eq_true, beq_iff_eq] at hok
+      exact ⟨hok.1.1.1.1.2, hok.1.1.1.2⟩
+    | var ts => simp [Tag.isLine] at hl
+    | block ts => simp [Tag.isLine] at hl
+    | comment b => simp [Tag.isLine] at hl
+    | raw c ri l2 tight => simp [Tag.isLine] at hl
+
 theorem handleTag_tag (cfg : Cfg) {d : Delims} (gd : Good d) (lead : List Out) (g : Tag)
     (preTag t' more : List Char) (hm : NoWsHead more) (hfree : rawFree d g (t' ++ more) = true)
-    (hcom : commentOk d g (t' ++ more) = true) :
+    (hcom : tagOk d g (t' ++ more) = true) :
     handleTag cfg d lead g.marker ((g.start d).length + g.l.ws.len) preTag (g.src d ++ (t' ++ more)) =
       .next (lead ++ tagOuts cfg g)
-        ((t'.take (nextK cfg g.blockish g.r t')).reverse ++ ((g.src d).reverse ++ preTag))
-        (t'.drop (nextK cfg g.blockish g.r t') ++ more) (nextTf g.r) := by
+        ((t'.take (nextKG cfg g t')).reverse ++ ((g.src d).reverse ++ preTag))
+        (t'.drop (nextKG cfg g t') ++ more) (nextTf g.r) := by
   cases g with
   | mk kind l r =>
     cases kind with
-    | var tight => exact handleTag_var cfg gd lead tight l r preTag t' more
-    | block w tight => exact handleTag_block cfg gd lead w tight l r preTag t' more hm
+    | var ts =>
+      simp only [tagOk, Bool.and_eq_true] at hcom
+      exact handleTag_var cfg gd lead ts l r preTag t' more hcom.1
+    | block ts =>
+      simp only [tagOk, Bool.and_eq_true, Bool.not_eq_true'] at hcom
+      exact handleTag_block cfg gd lead ts l r preTag t' more hm hcom.1.1 hcom.2
     | comment body =>
-      simp only [commentOk, Bool.and_eq_true] at hcom
+      simp only [tagOk, Bool.and_eq_true] at hcom
       exact handleTag_comment cfg gd lead body l r preTag t' more hm hcom.1.1 hcom.2
     | raw c ri l2 tight => exact handleTag_raw cfg gd lead c ri l2 tight l r preTag t' more hm hfree
+    | lineStmt ts =>
+      obtain ⟨rfl, rfl⟩ := line_marks hcom rfl
+      simp only [tagOk, Bool.and_eq_true, Bool.not_eq_true', List.isEmpty_eq_false_iff] at hcom
+      have hls : d.ls ≠ [] := by
+        have : d.ls.isEmpty = false := by simpa using hcom.1.1.1.1
+        intro h0; simp [h0] at this
+      exact handleTag_lineStmt cfg lead ts preTag t' more hm hls hcom.1.2 hcom.2
+    | lineComment body =>
+      obtain ⟨rfl, rfl⟩ := line_marks hcom rfl
+      simp only [tagOk, Bool.and_eq_true, Bool.not_eq_true', List.all_eq_true] at hcom
+      have hlc : d.lc ≠ [] := by
+        have : d.lc.isEmpty = false := by simpa using hcom.1.1.1.1.1
+        intro h0; simp [h0] at this
+      have := handleTag_lineComment cfg lead body preTag t' more hm hlc hcom.1.1.2 hcom.1.2
+      have hmm : (Mark.none == Mark.minus) = false := rfl
+      simpa [nextKG, nextK, cfgFor, Tag.isLine, Tag.blockish, nextTf, hmm, tagOuts, Tag.marker, Tag.start, Mark.ws, Ws.len] using this
 
-/-- the byte behind the start delimiter is read as the tag's left marker -/
-theorem Tag.ws_head {d : Delims} (gd : Good d) (g : Tag) (z : List Char) (hcom : commentOk d g z = true) :
-    wsOfChar (g.after d ++ z).head? = g.l.ws := by
-  obtain ⟨e0, er, hce, _, _, hm3, hm4⟩ := headOk_cons gd.ce
-  have key : ∀ (l : Mark) (c : Char) (y rest : List Char), isMarkChar c = false → rest = l.src ++ (c :: y) →
-      wsOfChar rest.head? = l.ws := by
-    intro l c y rest hc hr; rw [hr]; exact wsOfChar_mark l c y hc
+/-- `bodyStartOk`: behind an unmarked opening side there is no `-`/`+` -/
+theorem wsOfChar_body (body : List Char) (l r : Mark) (e z : List Char) (he : headOk e = true)
+    (h : bodyStartOk body l r = true) :
+    wsOfChar (l.src ++ (body ++ (r.src ++ (e ++ z)))).head? = l.ws := by
+  obtain ⟨e0, er, hce, _, _, hm3, hm4⟩ := headOk_cons he
+  cases l with
+  | minus => simp [Mark.src, Mark.ws, wsOfChar]
+  | plus => simp [Mark.src, Mark.ws, wsOfChar]
+  | none =>
+    simp only [bodyStartOk, bne_self_eq_false, Bool.false_or] at h
+    have hsrc : Mark.none.src ++ (body ++ (r.src ++ (e ++ z))) = (body ++ r.src) ++ (e ++ z) := by
+      simp [Mark.src, List.append_assoc]
+    rw [hsrc]
+    cases hbr : body ++ r.src with
+    | nil => simp [hce, Mark.ws, wsOfChar, hm3, hm4]
+    | cons c0 y0 =>
+      have : isMarkChar c0 = false := by
+        rw [hbr] at h; simpa using h
+      have h2 : c0 ≠ '-' ∧ c0 ≠ '+' := by simpa [isMarkChar] using this
+      simp [Mark.ws, wsOfChar, h2.1, h2.2]
+
+/-- the byte behind the start delimiter is read as the tag's left marker (a line statement has
+    none) -/
+theorem Tag.ws_head {d : Delims} (gd : Good d) (g : Tag) (z : List Char) (hcom : tagOk d g z = true) :
+    (if g.marker = .lineStmt then Ws.dflt else wsOfChar (g.after d ++ z).head?) = g.l.ws := by
   cases g with
   | mk kind l r =>
     cases kind with
-    | var tight =>
-      cases tight
-      · exact key l ' ' _ _ (by decide) (by simp [Tag.after, varBody, pad, List.append_assoc]; rfl)
-      · exact key l 'v' _ _ (by decide) (by simp [Tag.after, varBody, pad, List.append_assoc]; rfl)
-    | block w tight =>
-      cases w <;> cases tight
-      · exact key l ' ' _ _ (by decide) (by simp [Tag.after, Word.src, Word.core, pad, List.append_assoc]; rfl)
-      · exact key l 'i' _ _ (by decide) (by simp [Tag.after, Word.src, Word.core, pad, List.append_assoc]; rfl)
-      · exact key l ' ' _ _ (by decide) (by simp [Tag.after, Word.src, Word.core, pad, List.append_assoc]; rfl)
-      · exact key l 'e' _ _ (by decide) (by simp [Tag.after, Word.src, Word.core, pad, List.append_assoc]; rfl)
-    | raw c ri l2 tight =>
-      cases tight
-      · exact key l ' ' _ _ (by decide) (by simp [Tag.after, rawBody, rawName, pad, List.append_assoc]; rfl)
-      · exact key l 'r' _ _ (by decide) (by simp [Tag.after, rawBody, rawName, pad, List.append_assoc]; rfl)
+    | var ts =>
+      simp only [tagOk, Bool.and_eq_true] at hcom
+      have := wsOfChar_body (srcs ts) l r d.ve z gd.ve hcom.2
+      simpa [Tag.after, Tag.marker, List.append_assoc] using this
+    | block ts =>
+      simp only [tagOk, Bool.and_eq_true] at hcom
+      have := wsOfChar_body (srcs ts) l r d.be z gd.be hcom.1.2
+      simpa [Tag.after, Tag.marker, List.append_assoc] using this
     | comment body =>
-      cases l with
-      | minus => simp [Tag.after, Mark.src, Mark.ws, wsOfChar]
-      | plus => simp [Tag.after, Mark.src, Mark.ws, wsOfChar]
-      | none =>
-        simp only [commentOk, Bool.and_eq_true] at hcom
-        have hA := hcom.1.2
-        simp only [bodyStartOk, bne_self_eq_false, Bool.false_or] at hA
-        have hsrc : (Tag.mk (.comment body) .none r).after d ++ z = (body ++ r.src) ++ (d.ce ++ z) := by
-          simp [Tag.after, Mark.src, List.append_assoc]
-        rw [hsrc]
-        cases hbr : body ++ r.src with
-        | nil => simp [hce, Mark.ws, wsOfChar, hm3, hm4]
-        | cons c0 y0 =>
-          have : isMarkChar c0 = false := by
-            rw [hbr] at hA; simpa using hA
-          have h2 : c0 ≠ '-' ∧ c0 ≠ '+' := by simpa [isMarkChar] using this
-          simp [Mark.ws, wsOfChar, h2.1, h2.2]
+      simp only [tagOk, Bool.and_eq_true] at hcom
+      have := wsOfChar_body body l r d.ce z gd.ce hcom.1.2
+      simpa [Tag.after, Tag.marker, List.append_assoc] using this
+    | raw c ri l2 tight =>
+      have key : ∀ (c0 : Char) (y rest : List Char), isMarkChar c0 = false → rest = l.src ++ (c0 :: y) →
+          wsOfChar rest.head? = l.ws := by
+        intro c0 y rest hc hr; rw [hr]; exact wsOfChar_mark l c0 y hc
+      simp only [Tag.marker, if_neg (by simp : Marker.block ≠ Marker.lineStmt)]
+      cases tight
+      · exact key ' ' _ _ (by decide) (by simp [Tag.after, rawBody, rawName, pad, List.append_assoc]; rfl)
+      · exact key 'r' _ _ (by decide) (by simp [Tag.after, rawBody, rawName, pad, List.append_assoc]; rfl)
+    | lineStmt ts =>
+      obtain ⟨rfl, rfl⟩ := line_marks hcom rfl
+      simp [Tag.marker, Mark.ws]
+    | lineComment body =>
+      obtain ⟨rfl, rfl⟩ := line_marks hcom rfl
+      simp only [tagOk, Bool.and_eq_true] at hcom
+      have h := hcom.2
+      simp only [Tag.marker, if_neg (by simp : Marker.lineComment ≠ Marker.lineStmt), Tag.after, Mark.ws]
+      cases hb : body ++ z with
+      | nil => simp [wsOfChar]
+      | cons c0 y0 =>
+        rw [hb] at h
+        have h2 : c0 ≠ '-' ∧ c0 ≠ '+' := by simpa [isMarkChar] using h
+        simp [wsOfChar, h2.1, h2.2]
 
-theorem Tag.src_ne_nil {d : Delims} (gd : Good d) (g : Tag) : g.src d ≠ [] := by
-  obtain ⟨c, r, h, _⟩ := own_cons gd (g.own d)
+theorem Tag.src_ne_nil {d : Delims} (gd : Good d) (g : Tag) (z : List Char) (hok : tagOk d g z = true) :
+    g.src d ≠ [] := by
+  obtain ⟨c, r, h, _⟩ := own_cons gd (g.own z hok)
   simp [Tag.src, h]
 
-/-- a tag ends in a character that is not whitespace -/
-theorem Tag.src_rev_head {d : Delims} (gd : Good d) (g : Tag) :
+/-- a tag that is not a line statement / line comment ends in a character that is not whitespace -/
+theorem Tag.src_rev_head {d : Delims} (gd : Good d) (g : Tag) (hl : g.isLine = false) :
     ∃ c r, (g.src d).reverse = c :: r ∧ isWs c = false := by
   cases g with
   | mk kind l r =>
     cases kind with
-    | var tight =>
+    | var ts =>
       obtain ⟨c, rr, h, hw⟩ := lastOk_rev gd.lve
       exact ⟨c, _, by simp [Tag.src, Tag.after, List.reverse_append, h]; rfl, hw⟩
-    | block w tight =>
+    | block ts =>
       obtain ⟨c, rr, h, hw⟩ := lastOk_rev gd.lbe
       exact ⟨c, _, by simp [Tag.src, Tag.after, List.reverse_append, h]; rfl, hw⟩
     | comment body =>
@@ -110,15 +170,64 @@ theorem Tag.src_rev_head {d : Delims} (gd : Good d) (g : Tag) :
     | raw cc ri l2 tight =>
       obtain ⟨c, rr, h, hw⟩ := lastOk_rev gd.lbe
       exact ⟨c, _, by simp [Tag.src, Tag.after, List.reverse_append, h]; rfl, hw⟩
+    | lineStmt ts => simp [Tag.isLine] at hl
+    | lineComment b => simp [Tag.isLine] at hl
 
-theorem noWsHead_unparseTail {d : Delims} (gd : Good d) (tail : List (Tag × List Char)) :
+theorem noWsHead_unparseTail {d : Delims} (gd : Good d) {first : Bool} {t : List Char}
+    (tail : List (Tag × List Char)) (h : tailFree d first t tail = true) :
     NoWsHead (unparseTail d tail) := by
   cases tail with
   | nil => exact Or.inl rfl
   | cons x rest =>
     obtain ⟨g, t'⟩ := x
-    obtain ⟨c, r, h, hw⟩ := own_cons gd (g.own d)
-    exact Or.inr ⟨c, r ++ (g.after d ++ (t' ++ unparseTail d rest)), by simp [unparseTail, Tag.src, h], hw⟩
+    simp only [tailFree, Bool.and_eq_true] at h
+    obtain ⟨c, r, hc, hw⟩ := own_cons gd (g.own _ h.1.1.2)
+    exact Or.inr ⟨c, r ++ (g.after d ++ (t' ++ unparseTail d rest)), by simp [unparseTail, Tag.src, hc], hw⟩
+
+/-- behind a line statement / line comment that is followed by another tag, the text contains the
+    line break: the line-start scans of the next tag stay inside it -/
+theorem line_text_has_nl {d : Delims} {g : Tag} {t' more : List Char} (hok : tagOk d g (t' ++ more) = true)
+    (hl : g.isLine = true) (hm : ∃ c r, more = c :: r ∧ isWs c = false) :
+    ∃ c ∈ t', isHws c = false := by
+  obtain ⟨c0, r0, rfl, hw0⟩ := hm
+  have key : ∀ (hf : lineFollow (t' ++ c0 :: r0) = true), ∃ c ∈ t', isHws c = false := by
+    intro hf
+    by_cases hall : ∀ x ∈ t', isHws x = true
+    · exfalso
+      unfold lineFollow at hf
+      rw [List.dropWhile_append_of_pos hall, List.dropWhile_cons, isWs_false_not_hws hw0] at hf
+      simp only [Bool.false_eq_true, if_false] at hf
+      rw [isWs_false_not_nl hw0] at hf; cases hf
+    · have : ∃ x, x ∈ t' ∧ isHws x = false := by
+        apply Classical.byContradiction
+        intro hne
+        apply hall
+        intro x hx
+        cases hh : isHws x with
+        | true => rfl
+        | false => exact absurd ⟨x, hx, hh⟩ hne
+      obtain ⟨x, hx, hxh⟩ := this
+      exact ⟨x, hx, hxh⟩
+  cases g with
+  | mk kind l r =>
+    cases kind with
+    | lineStmt ts =>
+      simp only [tagOk, Bool.and_eq_true] at hok
+      exact key hok.2
+    | lineComment body =>
+      simp only [tagOk, Bool.and_eq_true] at hok
+      have hcf := hok.1.2
+      cases t' with
+      | nil =>
+        simp only [List.nil_append, commentFollow] at hcf
+        rw [isWs_false_not_nl hw0] at hcf; cases hcf
+      | cons a t'' =>
+        simp only [List.cons_append, commentFollow] at hcf
+        exact ⟨a, by simp, by simp [isHws, hcf]⟩
+    | var ts => simp [Tag.isLine] at hl
+    | block ts => simp [Tag.isLine] at hl
+    | comment b => simp [Tag.isLine] at hl
+    | raw c ri l2 tight => simp [Tag.isLine] at hl
 
 /-- `trim_leading_whitespace` is the same as having skipped the whitespace already -/
 theorem step_true (cfg : Cfg) (d : Delims) (find : FindStart) (ctx t more : List Char) (hm : NoWsHead more) :
@@ -130,49 +239,68 @@ theorem step_true (cfg : Cfg) (d : Delims) (find : FindStart) (ctx t more : List
 
 /-- one round on `text ++ tag ++ …` (text already cut by `l` on the left) -/
 theorem step_text_tag (cfg : Cfg) {d : Delims} (gd : Good d) {first : Bool} {ctx : List Char}
-    (hc : CtxOk first ctx) (t : List Char) (l : Nat) (hl : l ≤ t.length) (g : Tag) (t' : List Char)
-    (rest : List (Tag × List Char)) (hfree : tailFree d t ((g, t') :: rest) = true) :
+    (t : List Char) (hc : CtxInv first ctx t) (l : Nat) (hl : l ≤ t.length) (g : Tag) (t' : List Char)
+    (rest : List (Tag × List Char)) (hfree : tailFree d first t ((g, t') :: rest) = true) :
     step cfg d (findLL d) ((t.take l).reverse ++ ctx) (t.drop l ++ unparseTail d ((g, t') :: rest)) false =
-      .next (dataOut (cut l (rightCut cfg first g.blockish g.l t) t) ++ tagOuts cfg g)
-        ((t'.take (nextK cfg g.blockish g.r t')).reverse ++ ((g.src d).reverse ++ (t.reverse ++ ctx)))
-        (t'.drop (nextK cfg g.blockish g.r t') ++ unparseTail d rest) (nextTf g.r) := by
+      .next (dataOut (cut l (rightCutG cfg first g t) t) ++ tagOuts cfg g)
+        ((t'.take (nextKG cfg g t')).reverse ++ ((g.src d).reverse ++ (t.reverse ++ ctx)))
+        (t'.drop (nextKG cfg g t') ++ unparseTail d rest) (nextTf g.r) := by
+  have hmore := noWsHead_unparseTail gd rest (by
+    simp only [tailFree, Bool.and_eq_true] at hfree; exact hfree.2)
   simp only [tailFree, Bool.and_eq_true] at hfree
-  obtain ⟨⟨⟨⟨hns, hown⟩, hraw⟩, hcom⟩, _⟩ := hfree
+  obtain ⟨⟨⟨⟨⟨hns, hown⟩, hraw⟩, hcom⟩, hline⟩, _⟩ := hfree
   have hsw : startsWith (g.start d) (unparseTail d ((g, t') :: rest)) = true := by
     simp only [unparseTail, Tag.src, List.append_assoc]
     exact startsWith_append_self _ _
-  have hfind := findLL_text_tag gd (g.start d) g.marker (g.own d) (t.drop l) _ ((t.take l).reverse ++ ctx)
-    (noStartIn_drop t _ l hns) hsw hown
-  unfold step
-  simp only [Bool.false_eq_true, if_false, List.reverse_nil, List.nil_append, hfind]
-  rw [List.take_left, List.drop_left]
   have hpre : (t.drop l).reverse ++ ((t.take l).reverse ++ ctx) = t.reverse ++ ctx := by
     rw [← List.append_assoc, ← List.reverse_append, List.take_append_drop]
-  rw [hpre]
+  have hline' : g.marker ≠ .lineStmt ∨ lineStartP ((t.drop l).reverse ++ ((t.take l).reverse ++ ctx)) = true := by
+    rw [hpre, lineStartP_eq t hc]
+    simpa using hline
+  have hfind := findLL_text_tag gd (g.start d) g.marker (g.own _ hcom) (t.drop l) _ ((t.take l).reverse ++ ctx)
+    (noStartIn_drop t _ l hns) hsw hown hline'
+  unfold step
+  simp only [Bool.false_eq_true, if_false, List.reverse_nil, List.nil_append, hfind]
+  rw [List.take_left, List.drop_left, hpre]
   have hsrc : unparseTail d ((g, t') :: rest) = g.src d ++ (t' ++ unparseTail d rest) := by
     simp [unparseTail]
-  have hws : wsOfChar ((unparseTail d ((g, t') :: rest)).drop (g.start d).length).head? = g.l.ws := by
-    rw [hsrc, Tag.src, List.append_assoc, List.drop_left, Tag.ws_head gd g _ hcom]
-  rw [hws, if_neg (Tag.marker_ne_lineStmt g)]
-  rw [leadOf_eq_cut cfg hc g.l g.marker g.blockish (Tag.marker_blockish g) (Tag.marker_ne_lineStmt g)
-    (Tag.marker_ne_lineComment g) t l]
-  rw [hsrc, handleTag_tag cfg gd _ g _ t' _ (noWsHead_unparseTail gd rest) hraw hcom]
+  have hws : (if g.marker = .lineStmt then Ws.dflt
+      else wsOfChar ((unparseTail d ((g, t') :: rest)).drop (g.start d).length).head?) = g.l.ws := by
+    rw [hsrc, Tag.src, List.append_assoc, List.drop_left]
+    exact Tag.ws_head gd g _ hcom
+  rw [hws]
+  have hlead : leadOf cfg g.l.ws g.marker (t.reverse ++ ctx) (t.drop l) = cut l (rightCutG cfg first g t) t := by
+    cases hgl : g.isLine with
+    | false =>
+      have : cfgFor cfg g = cfg := by simp [cfgFor, hgl]
+      simp only [rightCutG, this]
+      exact leadOf_eq_cut cfg t hc g.l g.marker g.blockish (Tag.marker_blockish g)
+        (Tag.marker_ne_lineStmt g hgl) (Tag.marker_ne_lineComment g hgl) l
+    | true =>
+      obtain ⟨h1, _⟩ := line_marks hcom hgl
+      have hb : g.blockish = true := by
+        cases g with | mk kind l r => cases kind <;> simp_all [Tag.isLine, Tag.blockish]
+      have hm : g.marker = .lineStmt ∨ g.marker = .lineComment := by
+        cases g with | mk kind l r => cases kind <;> simp_all [Tag.isLine, Tag.marker]
+      simp only [rightCutG, cfgFor, hgl, if_true, h1, hb, Mark.ws]
+      exact leadOf_line_eq_cut cfg t hc g.marker hm l
+  rw [hlead, hsrc, handleTag_tag cfg gd _ g _ t' _ hmore hraw hcom]
 
 /-- the last text: no start marker is found -/
-theorem step_last (cfg : Cfg) {d : Delims} (gd : Good d) (ctx t : List Char) (l : Nat)
-    (hfree : tailFree d t [] = true) :
+theorem step_last (cfg : Cfg) {d : Delims} {first : Bool} (ctx t : List Char) (l : Nat)
+    (hfree : tailFree d first t [] = true) :
     step cfg d (findLL d) ((t.take l).reverse ++ ctx) (t.drop l ++ unparseTail d []) false =
       .stop (.ok (dataOut (t.drop l))) := by
   simp only [tailFree] at hfree
   unfold step
   simp only [Bool.false_eq_true, if_false, List.reverse_nil, List.nil_append, unparseTail, List.append_nil,
-    findLL_none gd _ _ (noStartIn_drop t [] l hfree)]
+    findLL_none _ _ (noStartIn_drop t [] l hfree)]
 
 /-- the token loop on the rest of a template renders `specTail` -/
 theorem lexGo_spec (cfg : Cfg) (vm bm : List Char) {d : Delims} (gd : Good d)
     (tail : List (Tag × List Char)) :
     ∀ (t : List Char) (first : Bool) (ctx : List Char) (k : Nat) (tf : Bool) (fuel : Nat),
-      CtxOk first ctx → tailFree d t tail = true → k ≤ t.length → (tf = true → k = 0) →
+      (tail ≠ [] → CtxInv first ctx t) → tailFree d first t tail = true → k ≤ t.length → (tf = true → k = 0) →
       (t.drop k ++ unparseTail d tail).length < fuel →
       renderRes vm bm (lexGo cfg d (findLL d) fuel ((t.take k).reverse ++ ctx) (t.drop k ++ unparseTail d tail) tf) =
         some (specTail cfg vm bm first (if tf then wsPre t else k) t tail) := by
@@ -187,18 +315,21 @@ theorem lexGo_spec (cfg : Cfg) (vm bm : List Char) {d : Delims} (gd : Good d)
       | true =>
         have hk0 := htf rfl
         subst hk0
-        have := step_true cfg d (findLL d) ctx t (unparseTail d []) (noWsHead_unparseTail gd [])
+        have := step_true cfg d (findLL d) ctx t (unparseTail d []) (Or.inl rfl)
         simp only [List.take_zero, List.reverse_nil, List.nil_append, List.drop_zero]
-        rw [this, step_last cfg gd ctx t _ hfree]
+        rw [this, step_last cfg ctx t _ hfree]
         simp [renderRes, renderOuts_dataOut, specTail]
       | false =>
-        rw [step_last cfg gd ctx t _ hfree]
+        rw [step_last cfg ctx t _ hfree]
         simp [renderRes, renderOuts_dataOut, specTail]
   | cons x rest ih =>
     obtain ⟨g, t'⟩ := x
     intro t first ctx k tf fuel hc hfree hk htf hfuel
-    have hfree' : tailFree d t' rest = true := by
-      simp only [tailFree, Bool.and_eq_true] at hfree; exact hfree.2
+    have hc' : CtxInv first ctx t := hc (by simp)
+    have hparts : tagOk d g (t' ++ unparseTail d rest) = true ∧ tailFree d false t' rest = true := by
+      simp only [tailFree, Bool.and_eq_true] at hfree; exact ⟨hfree.1.1.2, hfree.2⟩
+    obtain ⟨hcom, hfree'⟩ := hparts
+    have hmore := noWsHead_unparseTail gd rest hfree'
     cases fuel with
     | zero => omega
     | succ n =>
@@ -210,27 +341,45 @@ theorem lexGo_spec (cfg : Cfg) (vm bm : List Char) {d : Delims} (gd : Good d)
               | .next o pre' rest' tf' => (lexGo cfg d (findLL d) n pre' rest' tf').prepend o) =
             some (specTail cfg vm bm first l t ((g, t') :: rest)) := by
         intro l hl hfl
-        rw [step_text_tag cfg gd hc t l hl g t' rest hfree]
+        rw [step_text_tag cfg gd t hc' l hl g t' rest hfree]
         simp only []
         rw [renderRes_prepend]
-        have hctx : CtxOk false ((g.src d).reverse ++ (t.reverse ++ ctx)) := by
-          obtain ⟨c, r, h, hw⟩ := Tag.src_rev_head gd g
-          exact Or.inr ⟨rfl, c, r ++ (t.reverse ++ ctx), by simp [h], hw⟩
-        have hlen : (t'.drop (nextK cfg g.blockish g.r t') ++ unparseTail d rest).length < n := by
-          have h1 : (g.src d).length > 0 := List.length_pos_iff.2 (Tag.src_ne_nil gd g)
+        have hmarks : g.isLine = true → g.r = .none := fun h => (line_marks hcom h).2
+        have hctx : rest ≠ [] → CtxInv false ((g.src d).reverse ++ (t.reverse ++ ctx)) t' := by
+          intro hne
+          cases hgl : g.isLine with
+          | false =>
+            obtain ⟨c, r, h, hw⟩ := Tag.src_rev_head gd g hgl
+            exact Or.inl (Or.inr ⟨rfl, c, r ++ (t.reverse ++ ctx), by simp [h], hw⟩)
+          | true =>
+            right
+            apply line_text_has_nl hcom hgl
+            rcases hmore with h0 | h0
+            · cases rest with
+              | nil => exact absurd rfl hne
+              | cons y ys =>
+                obtain ⟨g2, t2⟩ := y
+                have hok2 : tagOk d g2 (t2 ++ unparseTail d ys) = true := by
+                  simp only [tailFree, Bool.and_eq_true] at hfree'; exact hfree'.1.1.2
+                have := Tag.src_ne_nil gd g2 _ hok2
+                simp [unparseTail] at h0
+                exact absurd h0.1 this
+            · exact h0
+        have hlen : (t'.drop (nextKG cfg g t') ++ unparseTail d rest).length < n := by
+          have h1 : (g.src d).length > 0 := List.length_pos_iff.2 (Tag.src_ne_nil gd g _ hcom)
           simp only [unparseTail, List.length_append, List.length_drop] at hfl ⊢
           omega
-        rw [ih t' false _ (nextK cfg g.blockish g.r t') (nextTf g.r) n hctx hfree'
-          (nextK_le cfg g.blockish g.r t') (nextTf_k cfg g.blockish g.r t') hlen]
+        rw [ih t' false _ (nextKG cfg g t') (nextTf g.r) n hctx hfree'
+          (nextKG_le cfg g t') (nextTf_kG cfg g t' hmarks) hlen]
         simp only [Option.map_some, specTail, renderOuts_append, renderOuts_dataOut, renderOuts_tagOuts,
-          leftCut_eq, List.append_assoc]
+          leftCutG_eq cfg g t' hmarks, List.append_assoc]
       unfold lexGo
       cases tf with
       | true =>
         have hk0 := htf rfl
         subst hk0
         have := step_true cfg d (findLL d) ctx t (unparseTail d ((g, t') :: rest))
-          (noWsHead_unparseTail gd ((g, t') :: rest))
+          (noWsHead_unparseTail gd ((g, t') :: rest) hfree)
         simp only [List.take_zero, List.reverse_nil, List.nil_append, List.drop_zero] at hfuel ⊢
         rw [this]
         refine key (wsPre t) (wsPre_le t) ?_
